@@ -189,6 +189,12 @@ FAMILIES["arrmeth"] = {
             {"kind": "fn", "file": "src/array.rs", "impl": AM, "fn": f} for f in
             ["get_inner_mut", "get_mut", "is_sorted_up", "is_sorted_down", "take_sorted_flags", "take_value_flags", "or_sorted_flags",
              "mark_sorted_up", "mark_sorted_down", "reset_flags", "take_map_keys"]]},
+        {"items": [
+            {"kind": "range_in_fn", "name": "mark recomputation block of From<ArrayRep<T>> for Array<T>", "file": "src/array.rs",
+             "impl": r"^impl<T: ArrayValueSer> From<ArrayRep<T>> for Array<T> \{", "fn": "from",
+             "start": r"^[ \t]*let mut is_sorted_up = true;", "end": r"^[ \t]*arr\n[ \t]*\}",
+             "sig": "pub fn recompute_marks_after_load<T: ArrayValue>(arr: &mut Array<T>)"},
+        ]},
         {"wrap": "impl<T: ArrayValue> Array<T>", "items": [
             {"kind": "fn", "name": "Array::row_slice", "file": "src/array.rs", "impl": r"^impl<T> Array<T> \{", "fn": "row_slice"},
             {"kind": "fn", "name": "Array::validate", "file": "src/array.rs", "impl": r"^impl<T: ArrayValue> Array<T> \{", "fn": "validate"},
